@@ -44,7 +44,9 @@ VFind(r) ==
         cv  == CompileVerdict(r.q, reg, LoOf(r), HiOf(r))
     IN  IF cv.v # "accept" THEN Acc                       \* judged by VCompile
         ELSE LET segs == Parse(r.q, FALSE).v
-             IN  IF DcSegs(segs, r.doc, reg) THEN Acc
+             IN  IF DcSegs(segs, r.doc, reg) THEN
+                     \* the RESULT is a declared don't-care, raising is not: match()/search() never raise
+                     IF r.out # "ok" /\ r.stage = "find" THEN Rej("C13 find raised on a don't-care pattern", <<r.cls>>) ELSE Acc
                  ELSE IF r.out # "ok" /\ r.stage = "compile" THEN
                      IF r.jp THEN Rej("C03 valid query rejected", <<r.cls>>)
                      ELSE Rej("C13 compile raised a non-JSONPathError", <<r.cls>>)
